@@ -15,6 +15,8 @@ import (
 	"log"
 	"net/http"
 	"net/http/httptest"
+	"net/http/httptrace"
+	"net/textproto"
 	"net/url"
 	"os"
 	"sort"
@@ -36,12 +38,16 @@ import (
 func init() {
 	hx.Register(&hx.Prop{
 		ID: "C14",
-		Rule: "exhaustive: every handler op sequence of length ≤ 3 (thorough: ≤ 4) over a 10-letter alphabet (Content-Type set, X-A set to a valid / an invalid value, WriteHeader 200/404/0, Write valid/invalid piece, empty Write, Flush) " +
+		Rule: "exhaustive: every handler op sequence of length ≤ 3 (thorough: ≤ 4) over a 12-letter alphabet (Content-Type set, X-A set to a valid / an invalid value, WriteHeader 200/404/0/103, Write valid/invalid piece, empty Write, Flush, panic) " +
 			"× strict/non-strict × 10 response-document shapes (exact, range and default keys; JSON content, required response header, both; IncludeResponseStatus, ExcludeResponseBody); " +
 			"every way an operation can constrain the request, alone and in pairs with exactly one failing (document-level / operation-level security incl. override, empty list, undeclared scheme, AND/OR requirements; " +
 			"operation-level and path-level parameters in query/header/cookie/path; body schema/empty/content-type) × strict × routers × transports × Validator/ValidationHandler × neighbour operations that demand nothing; " +
 			"plus route/request failures × ErrFunc kinds (default http.Error, echo, silent, custom op list) × routers × recorder/real server, " +
-			"plus ValidationHandler (ServeHTTP/Middleware × custom/ValidationErrorEncoder × route/request outcomes); then a seeded random stream of op lists up to length 8 " +
+			"plus ValidationHandler (ServeHTTP/Middleware × custom/ValidationErrorEncoder × route/request outcomes); " +
+			"plus HISTORIES: every pair over a pool of 20 steps (9 handler behaviours × two operations with different responses, a rejected route, a rejected request) and every triple over a pool of 6, " +
+			"through ONE Validator chain, strict/non-strict × 3 two-operation documents, a rotating part behind the real server, with the other callbacks and with all requests in flight at once (barrier inside the handlers); the same for ValidationHandler; " +
+			"plus optional-interface calls (probe of 11 interfaces, ResponseController.Flush, io.Copy, io.WriteString), bodies of 40 kB (thorough 300 kB), 8 pieces, informational codes in every position, panics after partial output × both transports; " +
+			"plus every option list of length ≤ 3 over {Strict(true), Strict(false), OnErr ×2, OnLog, ValidationOptions ×2} handed to NewValidator; then a seeded random stream of op lists up to length 8 and of histories of 2-4 requests " +
 			"(incl. invalid status codes, header deletions, Content-Type variants). Non-trivial = the model reports a non-default branch (e.g. write before WriteHeader, several WriteHeader calls, " +
 			"no status at all, Flush before the status, strict replacement, custom callbacks, real server transport).",
 		Exhaustive: true,
@@ -52,7 +58,9 @@ func init() {
 		Workers:    8,
 		Assumptions: []string{
 			"verdicts of FindRoute / ValidateRequest / ValidateResponse are controlled through the document and the request (required integer query parameter; response entries with or without an application/json integer schema; body bytes drawn from digits 1-9 and 'x') and recomputed by the driver for that family",
-			"status codes 1xx, 204, 304 and HEAD requests are not generated (httptest.ResponseRecorder and the net/http server differ there); only behaviour common to both transports is compared",
+			"status codes 101, 204, 304 and HEAD requests are not generated (httptest.ResponseRecorder and the net/http server differ there beyond what the Client model captures); informational codes 102, 103, 199 are generated: the model's client is transport-aware for them (real server: sent at once, fix nothing; recorder: final)",
+			"net/http's client gives up after more than 5 informational responses: such an exchange is compared as aborted",
+			"histories: sync.Pool-style reuse is observed when consecutive requests are served from one goroutine (recorder transport); concurrent requests use a bounded barrier (150 ms) so that all wrappers are alive at once",
 			"request verdict: the operation is described as in C07 (parameters with a controlled verdict, security requirements decided by an AuthenticationFunc from the accepted-scheme set, body passing / schema / missing / content-type) and the driver evaluates the C07 model of ValidateRequest on it; ValidationHandler + unknown method is generated only for paths without template variables",
 			"w.Write of the client's writer never fails (no closed connections), so the 'failed to write response' log is not reachable",
 			"behind the real server only status, body, the X-*/Content-Type headers the model knows to be set, and connection abort (handler panic) are observable",
@@ -364,13 +372,57 @@ func c14NewVH(c hx.Case) (*openapi3filter.ValidationHandler, error) {
 // ---- handler = op list
 
 type c14Obs struct {
-	mu   sync.Mutex
-	ran  int
-	errs []string
-	logs []string
+	mu     sync.Mutex
+	ran    int
+	errs   []string
+	logs   []string
+	ifaces []string
+	probed bool
 }
 
-func c14RunOps(w http.ResponseWriter, ops []any) {
+// the optional interfaces a handler may look for on its http.ResponseWriter (names as in
+// KinModel/MiddlewareSrc.lean, Iface.name)
+func c14Probe(w http.ResponseWriter) []string {
+	out := []string{}
+	add := func(ok bool, n string) {
+		if ok {
+			out = append(out, n)
+		}
+	}
+	_, ok := w.(http.Flusher)
+	add(ok, "Flusher")
+	_, ok = w.(interface{ FlushError() error })
+	add(ok, "FlushError")
+	_, ok = w.(http.Hijacker)
+	add(ok, "Hijacker")
+	_, ok = w.(http.Pusher)
+	add(ok, "Pusher")
+	_, ok = w.(http.CloseNotifier)
+	add(ok, "CloseNotifier")
+	_, ok = w.(io.ReaderFrom)
+	add(ok, "ReaderFrom")
+	_, ok = w.(io.StringWriter)
+	add(ok, "StringWriter")
+	_, ok = w.(interface{ Unwrap() http.ResponseWriter })
+	add(ok, "Unwrap")
+	_, ok = w.(interface{ SetReadDeadline(time.Time) error })
+	add(ok, "SetReadDeadline")
+	_, ok = w.(interface{ SetWriteDeadline(time.Time) error })
+	add(ok, "SetWriteDeadline")
+	_, ok = w.(interface{ EnableFullDuplex() error })
+	add(ok, "EnableFullDuplex")
+	return out
+}
+
+func c14Bytes(m map[string]any) string {
+	b := jstr(m, "b")
+	if n, _ := strconv.Atoi(fmt.Sprint(m["rep"])); n > 0 {
+		return strings.Repeat(b, n)
+	}
+	return b
+}
+
+func c14RunOps(w http.ResponseWriter, ops []any, st *c14Step) {
 	for _, o := range ops {
 		m, _ := o.(map[string]any)
 		switch jstr(m, "op") {
@@ -382,11 +434,26 @@ func c14RunOps(w http.ResponseWriter, ops []any) {
 			n, _ := strconv.Atoi(fmt.Sprint(m["n"]))
 			w.WriteHeader(n)
 		case "w":
-			w.Write([]byte(jstr(m, "b")))
+			w.Write([]byte(c14Bytes(m)))
+		case "ws":
+			io.WriteString(w, c14Bytes(m))
+		case "copy":
+			// the reader is wrapped so that io.Copy cannot use its WriteTo: the writer's ReadFrom is used if it has one
+			io.Copy(w, struct{ io.Reader }{strings.NewReader(c14Bytes(m))})
 		case "fl":
 			if f, ok := w.(http.Flusher); ok {
 				f.Flush()
 			}
+		case "rcfl":
+			http.NewResponseController(w).Flush()
+		case "probe":
+			if st != nil {
+				st.obs.mu.Lock()
+				st.obs.ifaces, st.obs.probed = c14Probe(w), true
+				st.obs.mu.Unlock()
+			}
+		case "panic":
+			panic("handler panic (verif)")
 		}
 	}
 }
@@ -430,7 +497,7 @@ func c14Build(c hx.Case) (http.Handler, error) {
 			st.bar.wait(0)
 			defer st.bar.wait(1)
 		}
-		c14RunOps(w, st.ops)
+		c14RunOps(w, st.ops, st)
 	})
 	if jstr(c, "mode") == "vh" {
 		vh, err := c14NewVH(c)
@@ -486,7 +553,7 @@ func c14Build(c hx.Case) (http.Handler, error) {
 		default:
 			vh.ErrorEncoder = func(ctx context.Context, err error, w http.ResponseWriter) {
 				rec(ctx, kindOf(err))
-				c14RunOps(w, jlist(c["errops"]))
+				c14RunOps(w, jlist(c["errops"]), nil)
 			}
 		}
 		if jstr(c, "entry") == "mw" {
@@ -503,47 +570,88 @@ func c14Build(c hx.Case) (http.Handler, error) {
 	if jstr(c, "router") == "legacy" {
 		router = rs.legacy
 	}
-	opts := []openapi3filter.ValidatorOption{openapi3filter.Strict(jbool(c, "strict"))}
 	docm, _ := c["doc"].(map[string]any)
 	rq := c14Rq(c)
-	o := openapi3filter.Options{IncludeResponseStatus: jbool(docm, "includeStatus"), ExcludeResponseBody: jbool(docm, "excludeRespBody"),
-		ExcludeRequestBody: jbool(rq, "excludeBody"), ExcludeRequestQueryParams: jbool(rq, "excludeQuery"), MultiError: jbool(rq, "multi"),
-		AuthenticationFunc: c14Auth(c)}
-	opts = append(opts, openapi3filter.ValidationOptions(o))
 	recErr := func(ctx context.Context, status int, code openapi3filter.ErrCode) {
 		obs := &c14StepOf(ctx).obs
 		obs.mu.Lock()
 		obs.errs = append(obs.errs, fmt.Sprintf("%d:%d", status, int(code)))
 		obs.mu.Unlock()
 	}
-	switch jstr(c, "errfn") {
-	case "default":
-	case "echo":
-		opts = append(opts, openapi3filter.OnErr(func(ctx context.Context, w http.ResponseWriter, status int, code openapi3filter.ErrCode, err error) {
+	onErr := func(kind string) openapi3filter.ValidatorOption {
+		switch kind {
+		case "echo":
+			return openapi3filter.OnErr(func(ctx context.Context, w http.ResponseWriter, status int, code openapi3filter.ErrCode, err error) {
+				recErr(ctx, status, code)
+				w.Header().Set("X-Err", strconv.Itoa(int(code)))
+				w.WriteHeader(status)
+				w.Write([]byte("E" + strconv.Itoa(int(code))))
+			})
+		case "silent":
+			return openapi3filter.OnErr(func(ctx context.Context, w http.ResponseWriter, status int, code openapi3filter.ErrCode, err error) {
+				recErr(ctx, status, code)
+			})
+		}
+		return openapi3filter.OnErr(func(ctx context.Context, w http.ResponseWriter, status int, code openapi3filter.ErrCode, err error) {
 			recErr(ctx, status, code)
-			w.Header().Set("X-Err", strconv.Itoa(int(code)))
-			w.WriteHeader(status)
-			w.Write([]byte("E" + strconv.Itoa(int(code))))
-		}))
-	case "silent":
-		opts = append(opts, openapi3filter.OnErr(func(ctx context.Context, w http.ResponseWriter, status int, code openapi3filter.ErrCode, err error) {
-			recErr(ctx, status, code)
-		}))
-	default:
-		opts = append(opts, openapi3filter.OnErr(func(ctx context.Context, w http.ResponseWriter, status int, code openapi3filter.ErrCode, err error) {
-			recErr(ctx, status, code)
-			c14RunOps(w, jlist(c["errops"]))
-		}))
+			c14RunOps(w, jlist(c["errops"]), nil)
+		})
+	}
+	onLog := openapi3filter.OnLog(func(ctx context.Context, message string, err error) {
+		obs := &c14StepOf(ctx).obs
+		obs.mu.Lock()
+		obs.logs = append(obs.logs, c14LogKind(message))
+		obs.mu.Unlock()
+	})
+	var opts []openapi3filter.ValidatorOption
+	if vo, ok := c["vopts"].([]any); ok {
+		// the option list exactly as given (order, repetitions, omissions): NewValidator's defaults and
+		// "the last one wins" are the model's business
+		for _, x := range vo {
+			m, _ := x.(map[string]any)
+			switch jstr(m, "o") {
+			case "strict":
+				opts = append(opts, openapi3filter.Strict(jbool(m, "v")))
+			case "onerr":
+				opts = append(opts, onErr(jstr(m, "kind")))
+			case "onlog":
+				opts = append(opts, onLog)
+			default:
+				opts = append(opts, openapi3filter.ValidationOptions(openapi3filter.Options{
+					IncludeResponseStatus: jbool(m, "inc"), ExcludeResponseBody: jbool(m, "exb"), AuthenticationFunc: c14Auth(c)}))
+			}
+		}
+		return openapi3filter.NewValidator(router, opts...).Middleware(inner), nil
+	}
+	opts = append(opts, openapi3filter.Strict(jbool(c, "strict")))
+	o := openapi3filter.Options{IncludeResponseStatus: jbool(docm, "includeStatus"), ExcludeResponseBody: jbool(docm, "excludeRespBody"),
+		ExcludeRequestBody: jbool(rq, "excludeBody"), ExcludeRequestQueryParams: jbool(rq, "excludeQuery"), MultiError: jbool(rq, "multi"),
+		AuthenticationFunc: c14Auth(c)}
+	opts = append(opts, openapi3filter.ValidationOptions(o))
+	if jstr(c, "errfn") != "default" {
+		opts = append(opts, onErr(jstr(c, "errfn")))
 	}
 	if jstr(c, "logfn") != "default" {
-		opts = append(opts, openapi3filter.OnLog(func(ctx context.Context, message string, err error) {
-			obs := &c14StepOf(ctx).obs
-			obs.mu.Lock()
-			obs.logs = append(obs.logs, c14LogKind(message))
-			obs.mu.Unlock()
-		}))
+		opts = append(opts, onLog)
 	}
 	return openapi3filter.NewValidator(router, opts...).Middleware(inner), nil
+}
+
+// which callbacks of the case report to the harness (error callback, log callback)
+func c14Custom(c hx.Case) (bool, bool) {
+	if jstr(c, "mode") == "vh" {
+		return true, false
+	}
+	if vo, ok := c["vopts"].([]any); ok {
+		e, l := false, false
+		for _, x := range vo {
+			m, _ := x.(map[string]any)
+			e = e || jstr(m, "o") == "onerr"
+			l = l || jstr(m, "o") == "onlog"
+		}
+		return e, l
+	}
+	return jstr(c, "errfn") != "default", jstr(c, "logfn") != "default"
 }
 
 func c14Request(c hx.Case, base string) *http.Request {
@@ -617,9 +725,15 @@ func c14MayPanic(c hx.Case) bool {
 	for _, l := range lists {
 		for _, o := range jlist(l) {
 			m, _ := o.(map[string]any)
+			if jstr(m, "op") == "panic" {
+				return true
+			}
 			if jstr(m, "op") == "wh" {
 				if n, _ := strconv.Atoi(fmt.Sprint(m["n"])); n < 100 || n > 999 {
 					return true
+				}
+				if n, _ := strconv.Atoi(fmt.Sprint(m["n"])); n >= 100 && n <= 199 {
+					return true // many informational responses make the client give up: no silent retry on a reused connection
 				}
 			}
 		}
@@ -676,7 +790,19 @@ func c14ServeStep(c hx.Case, sc hx.Case, h http.Handler, st *c14Step, id string,
 		if c14MayPanic(c) {
 			cl = c14ClientNoKA
 		}
+		info := []int{}
+		var imu sync.Mutex
+		req = req.WithContext(httptrace.WithClientTrace(req.Context(), &httptrace.ClientTrace{
+			Got1xxResponse: func(code int, _ textproto.MIMEHeader) error {
+				imu.Lock()
+				info = append(info, code)
+				imu.Unlock()
+				return nil
+			}}))
 		resp, err := cl.Do(req)
+		imu.Lock()
+		res["info"] = append([]int{}, info...)
+		imu.Unlock()
 		aborted := err != nil
 		if err == nil {
 			b, rerr := io.ReadAll(resp.Body)
@@ -716,6 +842,9 @@ func c14ServeStep(c hx.Case, sc hx.Case, h http.Handler, st *c14Step, id string,
 	res["ran"] = st.obs.ran
 	res["err"] = append([]string{}, st.obs.errs...)
 	res["logs"] = append([]string{}, st.obs.logs...)
+	if st.obs.probed {
+		res["ifaces"] = append([]string{}, st.obs.ifaces...)
+	}
 	st.obs.mu.Unlock()
 	return res
 }
@@ -799,18 +928,29 @@ func c14Diff(c hx.Case, im, want map[string]any, full bool, checkLogs bool) stri
 	if fmt.Sprint(im["ran"]) != strconv.Itoa(wantRan) {
 		return fmt.Sprintf("handler invocations: impl %v, expected %d", im["ran"], wantRan)
 	}
-	custom := jstr(c, "mode") == "vh" || jstr(c, "errfn") != "default"
+	custom, customLog := c14Custom(c)
 	if custom && !sameStrs(toStrs(im["err"]), toStrs(want["err"]), true) {
 		return fmt.Sprintf("error callback calls: impl %v, expected %v", im["err"], want["err"])
 	}
-	if checkLogs && jstr(c, "mode") != "vh" && jstr(c, "logfn") != "default" && !sameStrs(toStrs(im["logs"]), toStrs(want["logs"]), true) {
+	if checkLogs && customLog && !sameStrs(toStrs(im["logs"]), toStrs(want["logs"]), true) {
 		return fmt.Sprintf("log callback calls: impl %v, expected %v", im["logs"], want["logs"])
+	}
+	if _, probed := im["ifaces"]; probed && want["ifaces"] != nil {
+		a, b := toStrs(im["ifaces"]), toStrs(want["ifaces"])
+		sort.Strings(a)
+		sort.Strings(b)
+		if !sameStrs(a, b, true) {
+			return fmt.Sprintf("optional interfaces the handler's writer offers: impl %v, expected %v", a, b)
+		}
 	}
 	if wantPanic := jbool(want, "panicked"); jbool(im, "panicked") != wantPanic {
 		return fmt.Sprintf("panic/abort: impl %v, expected %v (%v)", im["panicked"], wantPanic, im["panic_value"])
 	}
 	if server && jbool(im, "panicked") {
 		return "" // connection aborted: nothing else is observable
+	}
+	if server && want["info"] != nil && hx.Canon(im["info"]) != hx.Canon(want["info"]) {
+		return fmt.Sprintf("informational responses: impl %v, expected %v", im["info"], want["info"])
 	}
 	if fmt.Sprint(im["status"]) != fmt.Sprint(want["status"]) {
 		return fmt.Sprintf("status: impl %v, expected %v", im["status"], want["status"])
@@ -912,10 +1052,25 @@ func c14Op(kind string, a ...any) map[string]any {
 		m["k"] = a[0]
 	case "wh":
 		m["n"] = a[0]
-	case "w":
+	case "w", "ws", "copy":
 		m["b"] = a[0]
+		if len(a) > 1 {
+			m["rep"] = a[1]
+		}
 	}
 	return m
+}
+
+func c14HasInfo(ops []any) bool {
+	for _, o := range ops {
+		m, _ := o.(map[string]any)
+		if jstr(m, "op") == "wh" {
+			if n, _ := strconv.Atoi(fmt.Sprint(m["n"])); n >= 100 && n <= 199 {
+				return true
+			}
+		}
+	}
+	return false
 }
 
 func c14DocShape(includeStatus bool, entries ...string) map[string]any {
@@ -1031,6 +1186,7 @@ func genC14(ctx *hx.Ctx, emit func(hx.Case)) {
 	ct := c14Op("set", "Content-Type", "application/json")
 	alphabet := []map[string]any{
 		ct, c14Op("wh", 200), c14Op("wh", 404), c14Op("w", "12"), c14Op("w", "x"), c14Op("w", ""), c14Op("fl"), c14Op("set", "X-A", "1"), c14Op("wh", 0), c14Op("set", "X-A", "z"),
+		c14Op("panic"), c14Op("wh", 103),
 	}
 	// all op sequences of length ≤ 3 (quick) / ≤ 4 (thorough)
 	maxLen := 3
@@ -1060,6 +1216,9 @@ func genC14(ctx *hx.Ctx, emit func(hx.Case)) {
 				c := c14With(base, "ops", ops, "strict", strict, "doc", doc)
 				_ = di
 				emit(c)
+				if i%6 != 0 && c14HasInfo(ops) {
+					emit(c14With(c, "transport", "server")) // informational codes differ from final ones only behind a real server
+				}
 				switch i % 6 {
 				case 0:
 					emit(c14With(c, "transport", "server"))
@@ -1157,6 +1316,92 @@ func genC14(ctx *hx.Ctx, emit func(hx.Case)) {
 			}
 		}
 	}
+	// optional interfaces of the writer the handler is given (probe, ResponseController.Flush, io.Copy → ReadFrom,
+	// io.WriteString → WriteString), large bodies (beyond net/http's 4 kB buffer and io.Copy's 32 kB chunk),
+	// many pieces, informational codes in every position, panics after partial output
+	big := 40000
+	if ctx.Thorough() {
+		big = 300000
+	}
+	ifaceOps := [][]any{
+		{c14Op("probe")},
+		{c14Op("probe"), ct, c14Op("w", "12")},
+		{ct, c14Op("rcfl"), c14Op("w", "12")},
+		{ct, c14Op("w", "1"), c14Op("rcfl"), c14Op("w", "2")},
+		{ct, c14Op("rcfl"), c14Op("w", "x")},
+		{c14Op("wh", 404), c14Op("rcfl"), c14Op("w", "x")},
+		{ct, c14Op("ws", "12")},
+		{ct, c14Op("ws", "x")},
+		{ct, c14Op("copy", "12")},
+		{ct, c14Op("copy", "x")},
+		{ct, c14Op("copy", "")},
+		{c14Op("wh", 404), c14Op("copy", "1"), c14Op("ws", "2"), c14Op("w", "3")},
+		{ct, c14Op("w", "x", big)},
+		{c14Op("wh", 404), c14Op("w", "x", big)},
+		{ct, c14Op("copy", "x", big), c14Op("probe")},
+		{ct, c14Op("ws", "x", big), c14Op("w", "1")},
+		{c14Op("w", "x", 5000), c14Op("fl"), c14Op("w", "x", 5000), c14Op("wh", 404)},
+		{ct, c14Op("w", "1"), c14Op("w", "2"), c14Op("w", "3"), c14Op("w", "4"), c14Op("w", "5"), c14Op("w", "6"), c14Op("w", "7"), c14Op("w", "8")},
+		{c14Op("wh", 103), ct, c14Op("wh", 200), c14Op("w", "12")},
+		{c14Op("wh", 103), c14Op("wh", 404), c14Op("w", "1")},
+		{c14Op("wh", 102), c14Op("wh", 103), ct, c14Op("w", "12")},
+		{ct, c14Op("wh", 103)},
+		{ct, c14Op("w", "12"), c14Op("wh", 103)},
+		{c14Op("wh", 103), c14Op("wh", 103), c14Op("wh", 103), c14Op("wh", 103), c14Op("wh", 103), c14Op("wh", 103), c14Op("wh", 103), ct, c14Op("w", "12")},
+		{ct, c14Op("w", "12"), c14Op("panic")},
+		{c14Op("wh", 404), c14Op("fl"), c14Op("w", "x"), c14Op("panic"), c14Op("w", "y")},
+		{c14Op("set", "X-A", "1"), c14Op("panic")},
+		{c14Op("panic")},
+	}
+	ifaceDocs := []map[string]any{c14Docs[0], c14Docs[1], c14Docs[4], c14Docs[5], c14Docs[9]}
+	for _, ops := range ifaceOps {
+		for _, strict := range []bool{true, false} {
+			for _, doc := range ifaceDocs {
+				for _, tr := range []string{"recorder", "server"} {
+					emit(c14With(base, "ops", ops, "strict", strict, "doc", doc, "transport", tr))
+					emit(c14With(base, "ops", ops, "strict", strict, "doc", doc, "transport", tr, "errfn", "echo", "router", "legacy"))
+				}
+			}
+		}
+		for _, tr := range []string{"recorder", "server"} {
+			emit(c14With(base, "mode", "vh", "enc", "ops", "entry", "serve", "ops", ops, "transport", tr, "strict", false,
+				"errops", []any{c14Op("wh", 418), c14Op("w", "teapot")}))
+		}
+	}
+	// every way of handing options to NewValidator: all lists of length ≤ 3 over a pool (order, repetition,
+	// omission → defaults), on a few handler behaviours
+	optPool := []map[string]any{
+		{"o": "strict", "v": true}, {"o": "strict", "v": false}, {"o": "onerr", "kind": "echo"}, {"o": "onerr", "kind": "silent"},
+		{"o": "onlog"}, {"o": "valopts", "inc": true, "exb": false}, {"o": "valopts", "inc": false, "exb": true},
+	}
+	var optLists [][]any
+	var recOpt func(prefix []any, n int)
+	recOpt = func(prefix []any, n int) {
+		optLists = append(optLists, append([]any{}, prefix...))
+		if n == 0 {
+			return
+		}
+		for _, o := range optPool {
+			recOpt(append(prefix, o), n-1)
+		}
+	}
+	recOpt(nil, 3)
+	optBeh := [][]any{{ct, c14Op("w", "x")}, {c14Op("wh", 404), c14Op("w", "1")}, {}}
+	for li, l := range optLists {
+		for bi, b := range optBeh {
+			c := c14With(base, "vopts", l, "ops", b, "doc", c14DocShape(false, "200", "json"))
+			emit(c)
+			if (li+bi)%7 == 0 {
+				emit(c14With(c, "transport", "server"))
+			}
+			if (li+bi)%5 == 0 {
+				emit(c14With(c, "route", "nopath"))
+			}
+			if (li+bi)%5 == 1 {
+				emit(c14With(c, "req", "missing"))
+			}
+		}
+	}
 	// histories: sequences of requests through ONE middleware chain (what a Validator keeps between requests
 	// must not influence the next answer): every pair over a pool of steps, triples over a smaller pool
 	st := func(route, req string, path2 bool, ops ...map[string]any) map[string]any {
@@ -1180,6 +1425,7 @@ func genC14(ctx *hx.Ctx, emit func(hx.Case)) {
 		{ct, xa, c14Op("wh", 200), c14Op("w", "7")}, // with the required response header
 		{ct, c14Op("fl"), c14Op("w", "3")},          // Flush before the first write
 		{c14Op("wh", 201)},                          // status only
+		{c14Op("wh", 404), c14Op("w", "x"), c14Op("panic")}, // output, then a panic
 	}
 	var pool, small []map[string]any
 	for bi, b := range behaviours {
@@ -1270,6 +1516,24 @@ func genC14(ctx *hx.Ctx, emit func(hx.Case)) {
 	}
 	r := ctx.Rng
 	randOp := func() map[string]any {
+		if r.Chance(8) {
+			switch r.Intn(8) {
+			case 0:
+				return c14Op("panic")
+			case 1, 2:
+				return c14Op("wh", hx.Pick(r, []int{102, 103, 103, 199}))
+			case 3:
+				return c14Op("rcfl")
+			case 4:
+				return c14Op("ws", hx.Pick(r, []string{"1", "x", "45"}))
+			case 5:
+				return c14Op("copy", hx.Pick(r, []string{"1", "x", "67", ""}))
+			case 6:
+				return c14Op("probe")
+			default:
+				return c14Op("w", "x", hx.Pick(r, []int{3000, 5000, 33000})) // never digits: a 3000-digit JSON integer is not what "integer" is modelled for
+			}
+		}
 		switch r.Intn(12) {
 		case 0, 1:
 			return c14Op("wh", hx.Pick(r, []int{200, 201, 404, 500, 200, 404, 0, 99, 1000, 299}))
@@ -1512,6 +1776,11 @@ func shrinkC14(c hx.Case) []hx.Case {
 		}
 		if jstr(rq, "bodyFail") != "" {
 			out = append(out, with("bodyFail", ""))
+		}
+	}
+	if vo, ok := c["vopts"].([]any); ok {
+		for _, n := range dropEach(vo) {
+			out = append(out, c14With(c, "vopts", n))
 		}
 	}
 	if jbool(c, "decoy") {
